@@ -55,6 +55,12 @@ def render(name, s, e, nlook, shape=None):
         judged = len(evs) - 1
         out = [t for t in p.feed_generator(E.restamp(evs)) if t.ktraces[-1].eventid == E.n2i(name) and t.ktraces[-1].timestamp == judged]
         return E.stable_str(out[0]) if len(out) == 1 else None
+    if shape == 'same-code-ALL-record-inside':
+        # a record of the call's OWN code carrying the ALL qualifier (START|END) sits inside the window: the result comes from the END record
+        evs = evs[:1] + [E.ev(name, 3, s), E.ev(name, 3, s)] + evs[1:]        # (their words are the START words: in the domain of the decoder)
+        judged = len(evs) - 1
+        out = [t for t in p.feed_generator(E.restamp(evs)) if t.ktraces[0].eventid == E.n2i(name) and t.ktraces[-1].timestamp == judged and len(t.ktraces) > 1]
+        return E.stable_str(out[0]) if len(out) == 1 else None
     if shape == 'tables-name-the-words':
         # the parser's thread / process tables know every word of the END record as a thread id and as a process id (with names that
         # look like results): the result part is a function of the END record alone
@@ -184,7 +190,7 @@ def judge_decoder(name, starts, nlooks, acc, full=True):
             for err in (ERRS if (full or si == 0) and not ood else (0, 2, 9999, M64)):
                 for ret in RETS:
                     for tail in TAILS:
-                      for shape in ((None, 'long', 'crossing', 'enclosing', 'odd-timestamps', 'other-open-inside', 'other-open-before', 'same-thread-crossing', 'start-without-end-after', 'with-related-records', 'nested-then-orphan-end', 'brace-path', 'tables-name-the-words', 'after-an-open-that-returned-the-first-word') if (err in (0, 2, 9999) and ret in (0x55, M64) and tail == TAILS[1] and si == 0) else (None,)):
+                      for shape in ((None, 'long', 'crossing', 'enclosing', 'odd-timestamps', 'other-open-inside', 'other-open-before', 'same-thread-crossing', 'start-without-end-after', 'with-related-records', 'nested-then-orphan-end', 'brace-path', 'tables-name-the-words', 'after-an-open-that-returned-the-first-word', 'same-code-ALL-record-inside') if (err in (0, 2, 9999) and ret in (0x55, M64) and tail == TAILS[1] and si == 0) else (None,)):
                         if shape == 'brace-path' and name == 'BSC_fsgetpath':
                             continue       # its result part quotes the looked-up path (the documented leniency): nothing to compare with
                         e = (err, ret) + tail
